@@ -1,7 +1,7 @@
 """C16 — Classic descent minimisers are monotone and their line search is sound (DESIGN.md §5 C16, design.d/C16.md).
 
 Tie, four streams (all against the real code in-process, all cases through one batch of the Lean driver):
-  ls      real `LineSearch.perform_line_search` on generated polynomial energies (convex, non-convex, boxed domains that
+  ls      real `LineSearch.perform_line_search` on generated polynomial / rational energies (convex, non-convex, boxed domains that
           yield NaN / inf / 1e200 / FloatingPointError) with a tracing `LineEnergy`; the recorded (α, φ, φ') trace goes to the
           verified checker `runLS` (must accept; same verdict, same returned α, same exception kind)   [class F]
           + oracle: strong Wolfe at the returned point in exact rationals                               [real code only]
@@ -32,8 +32,9 @@ DRIVER = "Driver/C16.lean"
 OBLIGATIONS = ["NiftyVerif.C16." + t for t in (
     "descent_monotone", "descent_status",
     "ls_success_wolfe", "ls_success_wolfe_fun", "ls_success_strict_decrease", "ls_returns_evaluated_point",
+    "quadmin_stationary", "cubicmin_interpolates", "cubicmin_stationary",
     "vl_eq_two_loop", "buffer_window", "vl_eq_lbfgs_direction",
-    "store_gram", "store_invariant_step", "vl_run_eq_lbfgs_run",
+    "store_gram", "store_invariant_step", "vl_run_eq_lbfgs_run", "vl_run_eq_lbfgs_run_driver",
 )]
 RULE = ("ls: generated polynomial energy x start x direction kind x LineSearch parameters, non-trivial = at least one "
         "line evaluation recorded; min: minimiser x energy x start x controller, non-trivial = at least one search; "
@@ -46,8 +47,9 @@ TRUSTED_BASE = [
     "descent_minimizers.py / line_search.py; tied only by the differential checks of this module",
     "harness-side tracer: subclass of line_search.LineEnergy installed in the harness process records (alpha, value, "
     "directional_derivative) of every evaluation; PolyEnergy (harness) is the energy under test",
-    "IEEE rounding of c1*alpha*phi'(0), -c2*phi'(0), 0.99*maxstepsize, the backtracking midpoint and of "
-    "_cubicmin/_quadmin is outside the model (interpolated step lengths are taken from the trace, bracket checked)",
+    "IEEE rounding of c1*alpha*phi'(0), -c2*phi'(0), 0.99*maxstepsize, the backtracking midpoint is outside the model; "
+    "_quadmin/_cubicmin are recomputed exactly from the recorded floats and compared with a conditioned rounding-error "
+    "bound (2^-42 units, >= 800x the largest deviation observed); sqrt itself is not modelled (stationarity is tested)",
 ]
 ASSUMPTIONS = [
     "energy values totally ordered (NaN energies inside an accepted step are outside the model)",
@@ -245,9 +247,153 @@ def gen_lsscript_case(rng):
                 fkm1=rng.choice([None, None, 1.0, 0.125, 0.0, -1.0]), longest=rng.choice([None, None, None, 4.0, 1.0]))
 
 
+# ---- directed streams: multi-trial line searches on non-convex profiles, adversarial oracles ----------------
+
+def gen_profile_case(rng, family=None):
+    """non-convex profile along the search ray whose slope gets *steeper* before it flattens (concave flank, then the
+    well): the bracketing stage has to double the step several times and/or `_zoom` has to interpolate repeatedly.
+    Families: ramp (-a x - k x^2 + q x^4 per coordinate), well (rational 'Gaussian-well' -A/(1+q) entered from its
+    tail), ripple (shallow quadratic + several small wells along the ray)."""
+    family = family or rng.choice(["ramp", "well", "well", "ripple"])
+    n = rng.choice([1, 1, 2, 3])
+    terms, wells = [], []
+    if family == "ramp":
+        for i in range(n):
+            terms.append([-rng.choice([0.5, 1.0, 2.0]), _unit(n, i)])
+            terms.append([-rng.choice([0.25, 0.5, 1.0, 2.0]), _unit(n, i, 2)])
+            terms.append([rng.choice([1 / 64, 1 / 16, 0.25]), _unit(n, i, 4)])
+        x0 = [rng.choice([0.0, 0.0, 0.125, -0.25]) for _ in range(n)]
+    elif family == "well":
+        m = [rng.choice([2.0, 3.0, 4.0, 6.0]) * rng.choice([1, -1]) for _ in range(n)]
+        wells.append(dict(A=rng.choice([1.0, 2.0, 4.0]), w=[rng.choice([0.25, 0.5, 1.0, 2.0]) for _ in range(n)], m=m))
+        for i in range(n):
+            terms.append([2.0 ** -rng.randint(6, 10), _unit(n, i, 2)])
+        x0 = [rng.choice([0.0, 0.25, -0.5]) for _ in range(n)]
+    else:
+        for i in range(n):
+            terms.append([rng.choice([1 / 32, 1 / 16, 0.125]), _unit(n, i, 2)])
+            terms.append([-rng.choice([0.25, 0.5]), _unit(n, i)])
+        x0 = [0.0] * n
+        for j in range(rng.randint(2, 4)):
+            wells.append(dict(A=rng.choice([0.125, 0.25, 0.5]), w=[rng.choice([1.0, 2.0, 4.0]) for _ in range(n)],
+                              m=[1.0 + 1.5 * j + rng.choice([0.0, 0.25]) for _ in range(n)]))
+    spec = {"n": n, "terms": terms, "wells": wells, "box": None, "family": family}
+    g = I.energy_at(spec, x0).gradient.asnumpy().astype(np.float64)
+    d = -g * 2.0 ** -rng.randint(0, 4)
+    kw = {}
+    c1 = rng.choice([1e-4, 1e-4, 2.0 ** -13, 0.01, 0.1, 0.25, 0.45])
+    c2 = rng.choice([0.9, 0.9, 0.7, 0.5, 0.3, 0.95])
+    if c1 < c2:
+        kw["c1"], kw["c2"] = c1, c2
+    r = rng.random()
+    if r < 0.5:
+        nrm = float(np.linalg.norm(d)) or 1.0
+        kw["preferred_initial_step_size"] = 2.0 ** -rng.randint(0, 5) / nrm * rng.choice([1.0, 1.0, 4.0])
+    if rng.random() < 0.15:
+        kw["max_step_size"] = rng.choice([64.0, 16.0, 1e3])
+    return dict(kind="ls", energy=spec, x0=x0, d=[float(v) for v in d], dkind="profile:" + family, ls=kw,
+                fkm1=None, longest=None)
+
+
+ADV_TARGETS = ["s1curv", "s1armijo", "zcurv", "zarmijo", "zinterval"]
+
+
+def gen_lsadv_case(rng, target=None):
+    """adversarial scripted oracle aimed at one decision of the line search: the answers sit just on either side of the
+    threshold *and of the thresholds a wrong reference quantity would give* (slope/value of the previous trial, of
+    alpha_lo, ...), after a history in which those reference quantities differ from the ones at the start."""
+    target = target or rng.choice(ADV_TARGETS)
+    dphi0 = -rng.choice([1.0, 1.0, 0.5, 2.0])
+    c1 = rng.choice([2.0 ** -13, 2.0 ** -10, 0.0625, 0.25])
+    c2 = rng.choice([0.5, 0.75, 0.875, 0.9, 0.25])
+    a1 = rng.choice([1.0, 0.5, 0.25])
+    kw = dict(c1=c1, c2=c2, preferred_initial_step_size=a1, max_iterations=rng.choice([4, 6, 10, 100]),
+              max_zoom_iterations=rng.choice([3, 5, 10, 100]))
+    script, slopes = [], [dphi0]
+    eps = rng.choice([0.9, 0.95, 1.05, 1.1, 0.5, 1.5])
+    a, f = a1, 0.0
+
+    def armijo_line(alpha):
+        return c1 * alpha * dphi0
+
+    if target in ("s1curv", "s1armijo"):
+        # bracketing stage: k doublings with slopes steeper/flatter than at the start, values well below the Armijo line
+        for _ in range(rng.randint(1, 4)):
+            sl = dphi0 * rng.choice([1.5, 2.0, 4.0, 8.0, 1.0, 0.999])
+            if abs(sl) <= c2 * abs(dphi0):
+                sl = 2.0 * dphi0
+            f = min(f, armijo_line(a)) - rng.choice([0.25, 0.5, 1.0])
+            script.append([f, sl])
+            slopes.append(sl)
+            a *= 2
+        if target == "s1curv":
+            ref = rng.choice(slopes)
+            d = c2 * abs(ref) * eps * rng.choice([-1.0, -1.0, 1.0])
+            script.append([min(f, armijo_line(a)) - rng.choice([0.25, 0.5]), d])
+        else:
+            ref_val = rng.choice([armijo_line(a), f, f + armijo_line(a), armijo_line(a / 2)])
+            script.append([ref_val + rng.choice([0.0, 2.0 ** -20, -2.0 ** -20, 0.125, -0.125]),
+                           dphi0 * rng.choice([2.0, 0.1, -0.1])])
+    elif target == "zarmijo" and rng.random() < 0.6:
+        # values hugging the Armijo line: in the band between the line at alpha_j and the line at a *stale* step
+        # length (alpha_lo): needs a large c1, and alpha_lo either 0 or the first interpolated step (computed here as
+        # the code does: minimiser of the quadratic through (0, phi0, phi'0), (a1, phi_hi), else bisection)
+        c1 = rng.choice([0.0625, 0.25, 0.45])
+        c2 = rng.choice([0.5, 0.75, 0.9])
+        kw.update(c1=c1, c2=c2)
+        phi_hi = rng.choice([1.0, 0.5, 0.25, 4.0])
+        script.append([phi_hi, 0.0])
+        tiny = 2.0 ** -rng.randint(8, 20)
+        if rng.random() < 0.5:
+            script.append([-tiny, dphi0 * rng.choice([0.0, 0.1 * c2, -0.1 * c2])])
+        else:
+            B = (phi_hi - dphi0 * a1) / (a1 * a1)
+            aq = -dphi0 / (2.0 * B)
+            if not (0.1 * a1 <= aq <= 0.9 * a1):
+                aq = 0.5 * a1
+            f1 = c1 * aq * dphi0 - tiny
+            script.append([f1, dphi0 * rng.choice([2.0, 4.0])])
+            script.append([f1 - tiny / 4, dphi0 * rng.choice([0.0, 0.1 * c2, -0.1 * c2])])
+        f = -1.0
+    else:
+        # enter _zoom at once (Armijo fails at the first trial), then move alpha_lo a few times with steep slopes
+        script.append([rng.choice([1.0, 0.5, 4.0]), 0.0])
+        lo_slopes = []
+        for _ in range(rng.randint(1, 3)):
+            f = f - rng.choice([0.25, 0.5, 1.0])
+            sl = dphi0 * rng.choice([2.0, 4.0, 8.0, 1.5]) * rng.choice([1.0, 1.0, -1.0])
+            script.append([f + armijo_line(a1), sl])
+            lo_slopes.append(sl)
+        if target == "zcurv":
+            ref = rng.choice(lo_slopes + [dphi0])
+            script.append([f - 0.25 + armijo_line(a1), c2 * abs(ref) * eps * rng.choice([-1.0, 1.0])])
+        elif target == "zarmijo":
+            ref_val = rng.choice([f + armijo_line(a1), armijo_line(a1), armijo_line(a1 / 2), f])
+            script.append([ref_val + rng.choice([0.0, 2.0 ** -20, -2.0 ** -20, 0.125, -0.125]),
+                           dphi0 * rng.choice([2.0, -2.0, 0.1])])
+        else:
+            for _ in range(rng.randint(2, 4)):
+                up = rng.random() < 0.4
+                f2 = f + 0.125 if up else f - 0.125
+                if not up:
+                    f = f2
+                script.append([f2 + armijo_line(a1), dphi0 * rng.choice([2.0, -2.0, 4.0, -4.0])])
+    # tail: a point that ends the search successfully if it gets that far, then arbitrary answers
+    for _ in range(rng.randint(0, 4)):
+        f = f - 0.0625
+        script.append([f + armijo_line(8 * a), rng.choice([0.0, 0.1 * c2 * dphi0, 4.0 * dphi0, -4.0 * dphi0])])
+    return dict(kind="lsscript", phi0=0.0, dphi0=dphi0, script=script, default=[f - 1.0 + armijo_line(64 * a), 0.0],
+                ls=kw, fkm1=None, longest=None, dkind="adversarial:" + target)
+
+
 def gen_min_case(rng):
-    spec = gen_energy(rng)
-    x0 = gen_start(rng, spec, box_ok=False)
+    if rng.random() < 0.3:
+        # non-convex profile energies (ramps, rational wells, ripples): multi-trial line searches inside the runs
+        pc = gen_profile_case(rng)
+        spec, x0 = pc["energy"], pc["x0"]
+    else:
+        spec = gen_energy(rng)
+        x0 = gen_start(rng, spec, box_ok=False)
     if rng.random() < 0.15:
         r = max(abs(v) for v in x0) + rng.choice([0.5, 1.0, 2.0])
         spec["box"] = [r, rng.choice(["nan", "huge", "inf"])]
@@ -365,6 +511,13 @@ def do_ls(ctx, batch, case):
     if any(e[2] is None and not isinstance(e[1], str) and e[1] is not None and math.isfinite(e[1]) and
            abs(e[1]) <= 1e100 for e in rec.events):
         ctx.stat("ls:branch=zoom")
+    nd, nz = I.trace_shape(rec)
+    if nd >= 2:
+        ctx.stat("ls:shape=stage1-doublings>=2")
+    if nz >= 2:
+        ctx.stat("ls:shape=zoom-interpolations>=2")
+    if nd >= 1 and nz >= 1:
+        ctx.stat("ls:shape=doubling-then-zoom")
     r = oracle_ls(case, run)
     if r:
         ctx.counterexample(case, *r)
@@ -699,10 +852,14 @@ def run(ctx):
         ctx.stat("corpus")
     rounds = ctx.n(1, 10)          # thorough: 10 batches of the quick size with fresh draws
     for _ in range(rounds):
+        for _ in range(120):
+            do_ls(ctx, batch, gen_profile_case(ctx.rng))
         for _ in range(160):
             do_ls(ctx, batch, gen_ls_case(ctx.rng))
         for _ in range(300):
             do_ls(ctx, batch, gen_lsscript_case(ctx.rng))
+        for _ in range(250):
+            do_ls(ctx, batch, gen_lsadv_case(ctx.rng))
         for _ in range(40):
             do_min(ctx, batch, gen_min_case(ctx.rng))
         for _ in range(400):
@@ -712,14 +869,74 @@ def run(ctx):
         batch.flush(ctx)
 
 
+REJECT_TARGETS = [      # which decision of the code a rejected trace points at -> directed generators for it
+    ("main: derivative evaluated although _zoom", ["s1armijo"]),
+    ("main: derivative not evaluated", ["s1armijo"]),
+    ("evaluations recorded after the code would have returned", ["s1curv", "zcurv"]),
+    ("trace ends inside the main loop", ["s1curv", "s1armijo"]),
+    ("trace ends inside _zoom", ["zcurv", "zarmijo"]),
+    ("zoom: derivative", ["zarmijo"]),
+    ("zoom: alpha_j outside", ["zinterval", "zarmijo"]),
+    ("main: step length", ["s1curv", "s1armijo"]),
+]
+
+
+def search_targets(ctx):
+    """read the broken correspondences: which stream, and for rejected line-search traces which branch of runLS"""
+    streams, targets = set(), []
+    for d in ctx.disagreements:
+        note = d.get("note", "")
+        if "LineSearch" in note:
+            streams.add("ls")
+            m = d.get("model") or {}
+            reason = m.get("reject", "") if isinstance(m, dict) else ""
+            hit = False
+            for key, tg in REJECT_TARGETS:
+                if reason.startswith(key):
+                    targets += tg
+                    hit = True
+            if not hit:       # accepted, but another verdict / step: any decision may be the culprit
+                targets += ADV_TARGETS
+        elif "DescentMinimizer" in note:
+            streams.add("script")
+        elif "descent_direction" in note or "L_BFGS" in note or "twins" in note:
+            streams.add("twins")
+        else:
+            streams.add("min")
+    return streams, targets
+
+
 def search(ctx):
-    """targeted search on the real code only (used when a proof / the correspondence broke)"""
-    for i in range(ctx.n(600, 4000)):
-        case = [gen_ls_case, gen_lsscript_case, gen_script_case, gen_twins_case, gen_min_case][i % 5](ctx.rng)
+    """targeted search on the real code only (used when a proof / the correspondence broke): aims the directed
+    generators at the decision whose replay failed, then falls back to all streams"""
+    streams, targets = search_targets(ctx)
+    ctx.extra["search_targets"] = sorted(set(targets)) + sorted(streams)
+    rng = ctx.rng
+
+    def attempt(case):
         try:
             r = oracle(case)
         except Exception:  # noqa: BLE001
-            continue
+            return False
         if r:
             ctx.counterexample(case, *r)
+            return True
+        return False
+
+    if "ls" in streams or not streams:
+        tg = targets or ADV_TARGETS
+        for i in range(ctx.n(20000, 80000)):
+            case = gen_lsadv_case(rng, rng.choice(tg)) if i % 3 else gen_profile_case(rng)
+            if attempt(case):
+                return
+    gens = []
+    if "script" in streams or not streams:
+        gens.append(gen_script_case)
+    if "twins" in streams or not streams:
+        gens.append(gen_twins_case)
+    if "min" in streams or not streams:
+        gens.append(gen_min_case)
+    gens += [gen_ls_case, gen_lsscript_case]
+    for i in range(ctx.n(800, 5000)):
+        if attempt(gens[i % len(gens)](rng)):
             return
